@@ -92,6 +92,9 @@ def value_pools(rng, tier):
             A(), A(), A(N(0)), A(N(0)), A(N(1)), A(S("a")), A(S("A")), A(A(N(0))), A(A(N(0))), A(N(0), N(1)), A(N(1), N(0)),
             A(NIL), A(N(0), NIL), A(B(True)), A(A()), A(A(), A()),
             C("{1}", "{ 1 }"), C("{1}", "{ 1 }"), C("{2}", "{ 2 }"), C("{_x + 1}", "{ _x + 1 }"),
+            # code that differs in the letter case of a name only: whatever equality says about it, the hash must say the same
+            C("{_X + 1}", "{ _X + 1 }"), C("{gA = _x}", "{ gA = _x }"), C("{ga = _x}", "{ ga = _x }"), A(C("{_x + 1}", "{ _x + 1 }")), A(C("{_X + 1}", "{ _X + 1 }")),
+            H((C("{_x + 1}", "{ _x + 1 }"), N(1))), H((C("{_X + 1}", "{ _X + 1 }"), N(1))),
             H(), H(), H((N(1), N(2)), (N(3), N(4))), H((N(3), N(4)), (N(1), N(2))), H((S("a"), N(1))), H((S("A"), N(1))),
             H((A(N(0)), N(1))), H((N(1), A(N(2)))), H((N(1), A(N(2)))),
             H((N(1), N(2)), (N(3), N(4)), (N(5), N(6)), (N(7), N(8))), H((N(7), N(8)), (N(5), N(6)), (N(3), N(4)), (N(1), N(2)))]
